@@ -17,6 +17,7 @@ struct Pool {
     std::string fname;
     std::vector<dd_edge> fn;
     std::vector<std::string> names;
+    std::vector<std::vector<Val>> tabs;
 };
 
 void makePool(Pool& P, const Dom& D, Rng& r, int n, const char* fname, const char* prefix, bool posOnly) {
@@ -34,6 +35,7 @@ void makePool(Pool& P, const Dom& D, Rng& r, int n, const char* fname, const cha
         P.fn.emplace_back(P.F);
         buildFromTable(D, P.F, P.k, t, P.fn.back());
         P.names.push_back(std::string(prefix) + std::to_string(i));
+        P.tabs.push_back(t);
         emitTable(P.names.back(), fname, D, P.fn.back());
     }
 }
@@ -97,6 +99,33 @@ int run(const Args& A) {
                 if ((i * 7 + j) % 4 == 3) doOp(M, "EQUAL", EQUAL, i, j, B.F, "FB");
                 if ((i * n + j) % 97 == 0 && r.chance(1, 2)) { E.F->removeAllComputeTableEntries(); STATS.hit("clear"); }
             }
+        // 64-bit edge values: copies of some EV+ functions shifted by 2^32 and 2^33 (same nodes, root edge values that
+        // agree in their low 32 bits): keys that differ only in the UPPER word of a long item must stay different keys
+        {
+            int ns = std::min(n, 6);
+            size_t base = E.fn.size();
+            for (int q = 0; q < ns; q++) for (int sh = 1; sh <= 2; sh++) {
+                std::vector<Val> t = E.tabs[size_t(q)];
+                for (auto& v : t) if (v.t == Val::I) v.n += (long(sh) << 32);
+                E.fn.emplace_back(E.F);
+                buildFromTable(D, E.F, E.k, t, E.fn.back());
+                E.names.push_back("eS" + std::to_string(q) + "_" + std::to_string(sh));
+                E.tabs.push_back(t);
+                emitTable(E.names.back(), "FE", D, E.fn.back());
+            }
+            for (int i = 0; i < std::min(n, 12); i++)
+                for (int q = 0; q < ns; q++) {
+                    // the unshifted question first (warms the table), then the shifted ones over the same nodes
+                    doOp(E, "MINIMUM", MINIMUM, i, q, E.F, "FE");
+                    doOp(E, "MINIMUM", MINIMUM, i, int(base) + 2 * q, E.F, "FE");
+                    doOp(E, "MINIMUM", MINIMUM, i, int(base) + 2 * q + 1, E.F, "FE");
+                    doOp(E, "MAXIMUM", MAXIMUM, int(base) + 2 * q, i, E.F, "FE");
+                    doOp(E, "MAXIMUM", MAXIMUM, i, q, E.F, "FE");
+                    doOp(E, "PLUS", PLUS, i, int(base) + 2 * q + 1, E.F, "FE");
+                    doOp(E, "PLUS", PLUS, i, q, E.F, "FE");
+                }
+            STATS.hit("long-edge-values");
+        }
         // boolean sets, a relation, images and reachability (keys with level items, saturation's two entry types),
         // copies between labelings - all sharing the same tables in the monolithic styles
         {
